@@ -174,7 +174,7 @@ Section Strict.
   Lemma strict_str n : forall t s, R (ref_dec_str_g E P true n t s) (ref_dec_str_g E P false n t s).
   Proof.
     induction n as [|n IHn].
-    all: induction t as [ | | | | | | m' | k' | e' | t' IHt | fr' t' IHt | t' IHt | ts IHts | pre IHpre mid IHmid IHmide post IHpost | kt IHkt vt IHvt | t' IHt | c' | c' | c' ]
+    all: induction t as [ | | | | | | m' | k' | e' | t' IHt | fr' t' IHt | t' IHt | ts IHts | pre IHpre mid IHmid IHmide post IHpost | kt IHkt vt IHvt | t' IHt | c' | c' | c' | t' IHt | kt IHkt vt IHvt | bx t' IHt ]
       using sty_ind'; intros s; rewrite (ref_dec_str_unfold E P true), (ref_dec_str_unfold E P false); try apply R_refl; try apply IHt.
     all: try (apply R_bind_same; apply R_mapM; intros x _; apply IHt).
     all: try (apply R_bind_same; generalize (utf8_chars s) as l; induction IHts as [|t1 ts H1 Hts IH]; intros l;
@@ -187,6 +187,7 @@ Section Strict.
               | apply in_app_or in Hd; destruct Hd as [Hd|Hd];
                 [ apply (Forall_In _ _ IHmide d Hd) | apply (Forall_In _ _ IHpost d Hd) ] ] ].
     all: try (destruct (sfind E _ c') as [k|]; apply R_refl).
+    all: try solve [ apply R_bind_same; apply IHt ].
     destruct (sfind E _ c') as [k|]; [|apply R_refl].
     apply R_bind_same. apply R_nt_items_id. intros f x _. apply IHn.
   Qed.
@@ -196,7 +197,7 @@ Section Strict.
   Proof.
     induction d as [ | b | z | f | s | m b | l IHl | l IHl | fr l IHl | kvs IHk | c fs IHf | e m | k w | c l IHl | tg ]
       using pv_rect'; unfold same_ok.
-    all: intros t; induction t as [ | | | | | | m' | k' | e' | t' IHt | fr' t' IHt | t' IHt | ts | pre mid IHmid post | kt IHkt vt IHvt | t' IHt | c' | c' | c' ];
+    all: intros t; induction t as [ | | | | | | m' | k' | e' | t' IHt | fr' t' IHt | t' IHt | ts | pre mid IHmid post | kt IHkt vt IHvt | t' IHt | c' | c' | c' | t' IHt | kt IHkt vt IHvt | bx t' IHt ];
       rewrite (ref_dec_unfold E P true), (ref_dec_unfold E P false); try apply R_refl.
     (* Optional *)
     all: try solve [ cbn [is_none]; first [ apply R_refl | apply IHt ] ].
@@ -213,6 +214,12 @@ Section Strict.
     (* NamedTuple from a sequence *)
     all: try solve [ destruct (sfind E _ c') as [kc|]; [|apply R_refl]; apply R_bind_same;
                      apply R_nt_items_id; intros f x Hx; apply (Forall_In _ _ IHl x Hx) ].
+    (* dict / Mapping *)
+    all: try solve [ apply R_bind_same; apply R_mapM; intros [k x] Hp;
+      destruct (Forall_In _ _ IHk (k, x) Hp) as [Qk Qx]; cbn [fst snd] in Qk, Qx;
+      apply R_bind; [apply Qk|]; intros k'; apply R_bind_same; apply Qx ].
+    (* boxed collections *)
+    all: try solve [ apply R_bind_same; apply IHt ].
     - (* VList, STupleFix *)
       apply R_bind_same. revert ts. induction l as [|x l IHl']; intros ts.
       + destruct ts; apply R_refl.
@@ -223,10 +230,6 @@ Section Strict.
       + destruct ts; apply R_refl.
       + destruct ts as [|t1 ts]; [apply R_refl|]. inversion IHl as [|? ? Qx Ql]; subst.
         apply R_bind; [apply Qx|]. intros y. apply R_bind_same. apply (IHl' Ql).
-    - (* VDict, SDict *)
-      apply R_bind_same. apply R_mapM. intros [k x] Hp.
-      destruct (Forall_In _ _ IHk (k, x) Hp) as [Qk Qx]. cbn [fst snd] in Qk, Qx.
-      apply R_bind; [apply Qk|]. intros k'. apply R_bind_same. apply Qx.
     - (* VDict, SData: the field loop *)
       destruct (sfind E _ c') as [k|]; [|apply R_refl].
       cbv zeta. apply R_bind_same. induction (sc_fields k) as [|f fds IHfds]; [apply R_refl|].
